@@ -98,7 +98,7 @@ typedef struct {
 
 typedef struct {
         ISAL_SM3_MB_ARGS_X16 args;
-        uint32_t lens[ISAL_SM3_MAX_LANES];
+        DECLARE_ALIGNED(uint32_t lens[ISAL_SM3_MAX_LANES], 16);
         uint64_t unused_lanes; //!< each nibble is index (0...3 or 0...7) of unused lanes, nibble 4
                                //!< or 8 is set to F as a flag
         ISAL_SM3_LANE_DATA ldata[ISAL_SM3_MAX_LANES];
